@@ -92,6 +92,9 @@ CHECKS["C04"]["text"] += " Added initial states: loaded workbooks with a shared-
 CHECKS["C05"]["text"] += " Added: style objects moved between reloaded workbooks (transfer) and two cells sharing one style of which one is edited in place after a reload, compared with a twin workbook given the final styles directly (edit-after-load)."
 CHECKS["C06"]["text"] += " Added: every ordered pair (loaded kind, kind added after a reload, on the same or another sheet), and sheet removal by name / of a middle sheet."
 CHECKS["C08"]["text"] += " Added: reversed-corner ranges, shared-formula groups whose children hold only view text, defined names and chart series as reference carriers."
+CHECKS["C13"]["text"] += " Added: two overlapping path saves to different destinations with the same stem (save A suspended at the package writer's hook points after it created its temporary file, save B run to completion there), both judged by the same oracle."
+CHECKS["C09"]["text"] += " Added: the translate clause on shared-formula children as the reader leaves them (masters of the whole quick grammar, children read back from a saved file)."
+CHECKS["C02"]["text"] += " Added: every corpus file opened lazily, first or last sheet materialised and edited, decoded package compared with an eagerly loaded twin."
 CHECKS["C17"]["text"] += " Added clause: Worksheet::set_style_by_range as a public consumer of whole-row / whole-column range corners."
 for _c in ("C14","C15","C17","C18","C19","C20"):
     CHECKS[_c]["text"] += " Every case space is also run in DESCENDING case order (spaces named <id>~rev; quick tier of C18/C19: all but the largest space), so that library code with process-wide state (caches, memo tables, statics) meets every case after a different predecessor."
